@@ -810,8 +810,12 @@ impl Service {
                 // The distances we send are sanitized an ordered.
                 // We never send an ENR request in combination of other requests.
                 if distances_requested.len() == 1 && distances_requested[0] == 0 {
-                    // we requested an ENR update
-                    if nodes.len() > 1 {
+                    // we requested an ENR update: the answer is the peer's own record and nothing else
+                    if nodes.len() > 1
+                        || nodes
+                            .iter()
+                            .any(|enr| peer_key.log2_distance(&enr.node_id().into()).is_some())
+                    {
                         warn!(
                             %node_address,
                             "Peer returned more than one ENR for itself. Blacklisting",
